@@ -178,4 +178,8 @@ def write_struct(representation_code: RepresentationCode, value: Any) -> bytes:
         # 0.0 == -0.0, but the two are written differently; zeros are kept out of the cache
         return _write_struct(representation_code, value)
 
+    if hasattr(value, 'obname'):
+        # EFLR items are mutable (name, origin reference) and keep their own OBNAME cache
+        return _write_struct(representation_code, value)
+
     return _write_struct_cached(representation_code, value)
